@@ -1,10 +1,13 @@
-"""C14 finding `indented-comment-before-continuation`.
+"""C14, repaired defect `indented-comment-before-continuation` (fixed in /repo b2faa46) — regression demo:
+exits 0 on the repaired code, 1 if the defect is back.
+
+What the defect was:
 
 Fixed form: a comment line may start with '!' in any column except column 6 (F2018 6.3.3.2: '!' initiates a
 comment except in a character context or in character position 6), and comment lines may stand between a line and
-its continuation line.  ford.fixed2free2 recognises such a line only when the '!' stands in columns 1-5; with the
-'!' in column 7 or beyond the line is taken for a statement line: it ends the pending statement, and the '&' meant
-for the continued statement is put on the comment line.  The continuation line then starts a statement of its own.
+its continuation line.  ford.fixed2free2 recognised such a line only when the '!' stood in columns 1-5; with the
+'!' in column 7 or beyond the line was taken for a statement line: it ended the pending statement, and the '&' meant
+for the continued statement was put on the comment line.  The continuation line then started a statement of its own.
 
 Run:  PYTHONPATH=/repo:/verif /venv/bin/python findings/c14_indented_comment.py
 """
